@@ -356,6 +356,17 @@ func normDump(d string) string {
 	return strings.ReplaceAll(nilParams.ReplaceAllString(d, "(Fn $1 $2 $3 [] "), " ", "")
 }
 
+// sameFn: same parameters, body, variadic flag - and same name, except for an alias (a function bound to another
+// name than its own), whose inner name is not part of what the binding promises (it is dropped on save once the
+// name no longer denotes that function)
+func sameFn(key string, f, r object.Function) bool {
+	a, b := fnOf(f), fnOf(r)
+	if f.Name != nil && f.Name.Literal() != key {
+		a.name, b.name = "", ""
+	}
+	return a == b
+}
+
 func dumpListNC(l []ast.Node) string {
 	parts := make([]string, len(l))
 	for i, n := range l {
@@ -573,7 +584,8 @@ func checkEnv(c *Ctx, e envCase, emit bool) {
 	}
 	out1.Reset()
 	sA, outA := newState()
-	errA := repl.AutoLoad(sA, repl.Options{AutoLoad: true})
+	sA.MaxValueLen = e.maxLen
+	errA := repl.AutoLoad(sA, repl.Options{AutoLoad: true, AutoSave: true, MaxValueLen: e.maxLen}) // the session's real configuration
 	sB, outB := newState()
 	_, errsB := evalQuiet(sB, outB, `load("st")`)
 	outA.Reset()
@@ -649,7 +661,7 @@ func checkEnv(c *Ctx, e envCase, emit bool) {
 						failf(c, fnSig(f, n, "lost"), rp, fmt.Sprintf("%s: function %s reloaded as %s", w.tag, n, canonOrNone(r)))
 						continue
 					}
-					if fnOf(rf) != fnOf(f) {
+					if !sameFn(n, f, rf) {
 						failf(c, fnSig(f, n, "tree-changed"), rp, fmt.Sprintf("%s: %s saved as %q reloads as %q [%v | %v]", w.tag, n, f.Inspect(), rf.Inspect(), fnOf(f), fnOf(rf)))
 					} else {
 						c.NonTrivial("f:" + f.Inspect())
@@ -881,7 +893,13 @@ func emitSave(c *Ctx, s *eval.State, orig map[string]object.Object, maxLen int, 
 				if f.Name != nil && f.Name.Literal() == k {
 					named = "1"
 				}
-				bs = append(bs, Hx([]byte(k))+":O:"+named+":"+Hx([]byte(f.Inspect())))
+				txt := f.Inspect()
+				if named == "0" {
+					if l := lineFor(lines, k); l != nil && len(l) > len(k) {
+						txt = string(l[len(k)+1:]) // an opaque binding travels as the text the implementation wrote
+					}
+				}
+				bs = append(bs, Hx([]byte(k))+":O:"+named+":"+Hx([]byte(txt)))
 				c.Count("opaque-binding")
 				continue
 			}
@@ -1203,7 +1221,9 @@ func run(c *Ctx) {
 	c.Rule = "global environments built by evaluating generated grol source on a fresh eval.State: 1-6 data globals (integers incl. both int64 extremes, floats: special list, random 1-17 digit decimals over the " +
 		"whole exponent range, +-Inf, NaN, strings over all 256 bytes via \\x escapes and some valid UTF-8, nested arrays of 0-12 elements and maps of 0-6 pairs with keys of every type incl. arrays and maps), " +
 		"0-3 named functions / lambdas / anonymous func values with bodies from the shared grammar generator, histories (function writing a global, alias of a function, one-line quote), constant names, " +
-		"value-length limits 0/8/30/200; a findings stream adds integral floats, min-int64, closures, multi-line quotes, extension values, rebound nil/Inf/NaN and the recorded formatter findings. " +
+		"value-length limits 0/8/30/200/4000 (the default), named functions 1-2x longer than the limit; a findings stream adds integral floats, min-int64, closures, multi-line quotes, extension values, rebound nil/Inf/NaN and the recorded formatter findings. " +
+		"Sessions (fresh state, repl.AutoLoad, inputs, repl.AutoSave with the real options; then save()/load()): lines 1x/1.2x/2x/10x the limit (limits 4000/200/30/0, up to 70 KB), data values at limit-1/limit/limit+1, " +
+		"aliases of named functions whose own name was redefined/deleted/rebound (alias sorting before and after, alias of alias), globals changed only from inside functions/lambdas/loops/index assignment/++/del. " +
 		"non-trivial = distinct reloaded data values and function texts"
 	_ = extensions.Init(&extensions.Config{HasLoad: true, HasSave: true})
 	log.SetLogLevelQuiet(log.Critical)
@@ -1220,19 +1240,33 @@ func run(c *Ctx) {
 			fmt.Sscan(f[1], &ml)
 			checkEnv(c, envCase{strings.Split(string(Unhx(f[2])), "\x00"), ml}, false)
 		}
+		if sc, ok := parseSessCase(f); ok {
+			checkSessions(c, sc)
+		}
 		return
 	}
 	for _, e := range corpus {
 		checkEnv(c, e, true)
 	}
 	x := &gen{c, &Gen{R: c.R, O: GenOpts{AvoidKnown: true, MaxDepth: 3}}}
+	runSessions(c, x)
 	n, nf := 260, 60
 	if c.Thorough() {
 		n, nf = 6000, 1000
 	}
-	limits := []int{0, 0, 0, 8, 30, 200}
+	limits := []int{0, 0, 0, 8, 30, 200, 4000}
 	for i := 0; i < n; i++ {
-		checkEnv(c, envCase{x.environment(false), limits[c.R.Intn(len(limits))]}, true)
+		e := envCase{x.environment(false), limits[c.R.Intn(len(limits))]}
+		if c.R.Intn(10) == 0 {
+			// a named function whose saved line is long relative to the limit (named functions are not subject to it),
+			// with data globals sorted after it
+			base := e.maxLen
+			if base == 0 {
+				base = 3000
+			}
+			e.stmts = append(e.stmts, fnOfLen("hlong", int(float64(base)*[]float64{1, 1.2, 2}[c.R.Intn(3)])), "zlast = [1, \"t\"]")
+		}
+		checkEnv(c, e, true)
 	}
 	for i := 0; i < nf; i++ {
 		checkEnv(c, envCase{x.environment(true), limits[c.R.Intn(len(limits))]}, true)
